@@ -21,6 +21,7 @@ from dask.base import tokenize
 from packaging.version import Version
 from s3fs import S3FileSystem
 
+from ...data.netcdfindexer import netcdf_indexer
 from ...decorators import _manage_log_level_via_verbosity
 from ...functions import is_log_level_debug, is_log_level_detail
 from .. import IORead
@@ -3592,22 +3593,11 @@ class NetCDFRead(IORead):
 
             # Take add_offset and scale_factor out of the data
             # variable's properties since they will be dealt with by
-            # the variable's Data object. Makes sure we note that they
-            # were there so we can adjust the field's data type
-            # accordingly.
-            values = [
+            # the variable's Data object. (The data type of the
+            # unpacked data is worked out in `_create_netcdfarray`,
+            # for the data of every construct.)
+            for k in ("add_offset", "scale_factor"):
                 field_properties.pop(k, None)
-                for k in ("add_offset", "scale_factor")
-            ]
-            values = [value for value in values if value is not None]
-            unpacked_dtype = False
-            if values:
-                try:
-                    unpacked_dtype = np.result_type(*values)
-                except TypeError:
-                    # An attribute that is not numeric (for which no
-                    # unpacking will be done)
-                    unpacked_dtype = False
 
         # Initialise node_coordinates_as_bounds
         g["node_coordinates_as_bounds"] = set()
@@ -3835,9 +3825,7 @@ class NetCDFRead(IORead):
         # Add the data to the field
         # ------------------------------------------------------------
         if field:
-            data = self._create_data(
-                field_ncvar, f, unpacked_dtype=unpacked_dtype
-            )
+            data = self._create_data(field_ncvar, f)
             logger.detail(
                 f"        [d] Inserting field {data.__class__.__name__}"
                 f"{data.shape}"
@@ -6323,7 +6311,9 @@ class NetCDFRead(IORead):
 
             ncvar: `str`
 
-            unpacked_dtype: `False` or `numpy.dtype`, optional
+            unpacked_dtype: optional
+                Ignored. The data type of the unpacked data is found
+                from the variable's attributes.
 
             coord_ncvar: `str`, optional
 
@@ -6368,8 +6358,24 @@ class NetCDFRead(IORead):
             # without reading the data, so set it to None for now.
             dtype = None
 
-        if dtype is not None and unpacked_dtype is not False:
-            dtype = np.result_type(dtype, unpacked_dtype)
+        if g["unpack"] and getattr(dtype, "kind", None) in ("i", "u", "f"):
+            # Find the data type that the data will have after they
+            # have been unpacked, by unpacking an empty array with
+            # the code that will unpack the data when they are
+            # accessed. This accounts for the data types and the
+            # values of the scale_factor and add_offset attributes,
+            # and for the _Unsigned attribute, for the data of any
+            # construct.
+            try:
+                dtype = netcdf_indexer(
+                    np.empty((0,), dtype=dtype),
+                    mask=False,
+                    unpack=True,
+                    attributes=g["variable_attributes"][ncvar],
+                )[...].dtype
+            except Exception:
+                # Attributes for which no unpacking can be done
+                pass
 
         ndim = variable.ndim
         shape = variable.shape
